@@ -259,7 +259,7 @@ def c03_b(ctx: Ctx):
             if isinstance(n.ast, ast.Assign) and any(isinstance(t, ast.Attribute) and t.attr == "_directory_known" for t in n.ast.targets):
                 if ctx.fold(n.ast.value, rem) is False:
                     dk.add(n.id)
-        w = cfg.path(cfg.entry, {cfg.exit}, blocked=dk, kinds="n")
+        w = cfg.path(cfg.entry, {cfg.exit}, blocked=dk, kinds="nx")
         c = f"{rem.qual}|remove|_directory_known"
         if w is None and dk:
             out.append(ctx.ok(R, rem, rem.node, "remove() sets _directory_known=False on every normal path", construct=c))
@@ -293,6 +293,30 @@ def c03_b(ctx: Ctx):
                 bad = bad or w
             if bad is None:
                 out.append(ctx.ok(R, mv, st, "after the rename, move() adopts the complete state of a freshly opened destination handle", construct=c))
+                # the adopted state is complete only if Job.__init__ binds every per-handle field as an instance attribute
+                ji = ctx.fn("signac.job:Job.__init__")
+                jcfg = ctx.cfg(ji)
+                need = ["_project", "_id", "_cached_statepoint", "_statepoint_requires_init", "_directory_known"] + sorted(path_d)
+                for fld in need:
+                    ids = set()
+                    for n in jcfg.stmt_nodes():
+                        a = n.ast
+                        if isinstance(a, ast.Assign) and any(isinstance(t, ast.Attribute) and t.attr == fld and dotted(t.value) == "self" for t in a.targets):
+                            ids.add(n.id)
+                        for sub in _own(a):
+                            for cc in walk_no_nested(sub):
+                                if isinstance(cc, ast.Call) and isinstance(cc.func, ast.Attribute) and dotted(cc.func.value) == "self":
+                                    for tq in common.targets_of(ctx, ji, cc):
+                                        if fld in method_resets(ctx, tq):
+                                            ids.add(n.id)
+                    w2 = jcfg.path(jcfg.entry, {jcfg.exit}, blocked=ids, kinds="n")
+                    c3 = f"{ji.qual}|binds|{fld}"
+                    if w2 is None and ids:
+                        out.append(ctx.ok(R, ji, ji.node, f"Job.__init__ binds self.{fld} on every path, so a fresh handle's __dict__ carries it", construct=c3))
+                    else:
+                        out.append(ctx.viol(R, ji, ji.node, f"Job.__init__ does not bind self.{fld} as an instance attribute on every path: move() adopts `dst.__dict__`, which then lacks {fld}, "
+                                            "and the moved handle keeps its stale value (e.g. a state point object whose file name points into the source project)", construct=c3,
+                                            witness=jcfg.describe_path(w2) if w2 else None))
             else:
                 out.append(ctx.viol(R, mv, st, "move() can return after the rename without adopting the destination handle's state", construct=c,
                                     witness=cfg.describe_path(bad)))
